@@ -39,6 +39,9 @@ def _literal(e, names=()):
         return True
     if isinstance(e, ast.Name) and e.id in names:
         return True
+    # partial(f, <literals>): a function value fixed at import time
+    if isinstance(e, ast.Call) and ((isinstance(e.func, ast.Name) and e.func.id == "partial") or (isinstance(e.func, ast.Attribute) and e.func.attr == "partial" and isinstance(e.func.value, ast.Name) and e.func.value.id == "functools")) and e.args and all(_literal(a, names) for a in e.args) and all(k.arg is not None and _literal(k.value, names) for k in e.keywords):
+        return True
     if isinstance(e, (ast.List, ast.Set, ast.Tuple)):
         return all(_literal(x, names) for x in e.elts)
     if isinstance(e, ast.Dict):
